@@ -692,6 +692,25 @@ func c01R8(c *Ctx) {
 		}
 		c.check(good, "sendFileNameV3/archive-iff-subfiles", c.ipos(ci), "an archive stream is produced exactly for an entry with sub-files (the flag the receiver sees is computed from the same test)", "the archive reader is chosen on the wrong edge of the sub-files test")
 	}
+	// the converse, universally: an entry flagged as an archive never succeeds without its stream being built —
+	// whatever other flags it carries (an archive root is also a directory with sub-files)
+	{
+		isLenSub := func(v ssa.Value) bool {
+			call, _ := callOf(v)
+			return call != nil && calleeID(&call.Call) == "builtin len" && isFieldLoad("SubFiles")(call.Call.Args[0])
+		}
+		hit, path := reachFromE(v3.Blocks[0], 0, isNilErrReturn, func(in ssa.Instruction) bool {
+			ci, ok := in.(ssa.CallInstruction)
+			return ok && calleeID(ci.Common()) == tT+"newArchiveReader"
+		}, contradicts([]assumption{valueIs(isLenSub, 2)}))
+		c.check(hit == nil, "sendFileNameV3/subfiles=>archive-stream", c.pos(v3.Pos()), "an entry with sub-files always gets the archive reader", "an entry with sub-files can be announced without building the archive stream (its files are never sent, both ends report success)", c.pathStr(path)...)
+		cd := c.fn("trzszTransfer.createDirOrFile")
+		hit, path = reachFromE(cd.Blocks[0], 0, isNilErrReturn, func(in ssa.Instruction) bool {
+			ci, ok := in.(ssa.CallInstruction)
+			return ok && calleeID(ci.Common()) == tT+"newArchiveWriter"
+		}, contradicts([]assumption{{pred: isFieldLoad("Archive"), val: true}}))
+		c.check(hit == nil, "createDirOrFile/archive=>archive-writer", c.pos(cd.Pos()), "an entry flagged as archive always gets the archive writer", "an entry flagged as archive can be created without the archive writer (its stream is never unpacked, both ends report success)", c.pathStr(path)...)
+	}
 	m := c.fn("sourceFile.marshalSourceFile")
 	okFlag := false
 	eachInstr(m, func(in ssa.Instruction) {
